@@ -18,7 +18,6 @@ import c03_util as U
 import c02 as C02
 
 F_CHAIN = "C03-ber-chain-mixed-lengths"
-F_OSTAG = "C03-ber-constructed-string-tagged-type"
 
 
 def ber_variants(plan, rng, tier):
@@ -142,6 +141,8 @@ def ber_part(run, model, mods, cases, rng, tier):
                 run.count("ber_mixed_chain")
             if seg:
                 run.count("ber_segmented")
+            if segtl:
+                run.count("ber_segmented_tagged_type")
             exp = "OK %d %s ck=" % (len(b), c["der"])
             replay = {"module": m["text"], "type": c["tn"], "model_type": c["ts"], "value": c["vs"], "variant_kind": lab,
                       "command_line": l, "c": o, "expected": exp, "model": mo, "choices": ch, "canonical_der": c["der"]}
@@ -158,9 +159,6 @@ def ber_part(run, model, mods, cases, rng, tier):
                 continue
             if mixed and o.startswith("FAIL "):
                 run.known_finding(F_CHAIN, l)
-                continue
-            if segtl and o.startswith("FAIL "):
-                run.known_finding(F_OSTAG, l)
                 continue
             run.violation("oracle:ber_complete", dict(replay, what="the C BER decoder does not return OK / full length / the value on a valid encoding"))
         if cs and meta:
@@ -301,10 +299,9 @@ def xer_part(run, mods, cases, rng, tier):
             run.case(l)
             run.count("xer_%s_%s" % (syn, mode))
             exp = "OK %d %s ck=" % (len(v.encode("utf-8")), c["der"])
-            if not o.startswith(exp) and o.startswith("FAIL ") and U.xer_ws_before_boolean(v):
-                run.known_finding("C03-xer-boolean-leading-whitespace", l)
+            if U.xer_ws_before_boolean(v):
                 run.count("xer_ws_before_boolean")
-            elif not o.startswith(exp):
+            if not o.startswith(exp):
                 run.violation("oracle:xer_complete", {"what": "the C XER decoder does not return OK / full length / the value on a layout variant of its own output",
                                                       "module": m["text"], "type": c["tn"], "value": c["vs"], "layout": syn, "variant_kind": mode,
                                                       "c_output": text, "variant": v, "command_line": l, "c": o, "expected": exp})
